@@ -280,6 +280,7 @@ class Path:
         self.cur_loc = ''
         self.byte_cache = {}
         self.lazy = {}
+        self.prog_temps = None
         self.def_ids = set()
         self.nproves = 0
         self.keep = []  # keeps z3 terms alive so that ids used as cache keys stay unique
@@ -1044,6 +1045,18 @@ class Path:
         return tuple(out)
 
     def ev_List(self, n):
+        if self.spec_mode and self.prog_temps is not None and not self.quant:
+            # clause lists: element k is evaluated knowing elements < k (sequential conjunction)
+            out = []
+            for e in n.elts:
+                if isinstance(e, ast.Starred):
+                    return self.alloc(LObj(list(self.ev_Tuple(n))))
+                v = self.eval(e)
+                out.append(v)
+                if isinstance(v, Sym) and v.k == 'bool':
+                    self.pc.append(v.t)
+                    self.prog_temps.append(v.t)
+            return self.alloc(LObj(out))
         return self.alloc(LObj(list(self.ev_Tuple(n))))
 
     def ev_Set(self, n):
@@ -1228,19 +1241,29 @@ class Path:
         raise Unsupported('starred expression')
 
     def ev_ListComp(self, n):
-        return self.alloc(LObj(self.comprehension(n.elt, n.generators, n)))
+        r = self.comprehension(n.elt, n.generators, n)
+        if isinstance(r, Sym):
+            return self.alloc(LObj(None, r))
+        return self.alloc(LObj(r))
 
     def ev_GeneratorExp(self, n):
-        return ConcIter(self.comprehension(n.elt, n.generators, n))
+        r = self.comprehension(n.elt, n.generators, n)
+        if isinstance(r, Sym):
+            return r
+        return ConcIter(r)
 
     def ev_SetComp(self, n):
         items = self.comprehension(n.elt, n.generators, n)
+        if isinstance(items, Sym):
+            raise Unsupported('set comprehension over a symbolic sequence')
         if all(self.is_hashable_conc(x) for x in items):
             return frozenset(items)
         raise Unsupported('set comprehension with symbolic members')
 
     def ev_DictComp(self, n):
         pairs = self.comprehension(ast.Tuple([n.key, n.value], ast.Load()), n.generators, n)
+        if isinstance(pairs, Sym):
+            raise Unsupported('dict comprehension over a symbolic sequence')
         d = {}
         for k, v in pairs:
             if not self.is_hashable_conc(k):
@@ -1251,24 +1274,27 @@ class Path:
     def comprehension(self, elt, gens, node):
         """unrolled over concrete spines; symbolic map/filter forms are delegated"""
         r = self.cfg.symbolic_comprehension(self, elt, gens, node)
+        pre_iter = None
         if r is not None:
-            return r
+            if r[0] == 'sym':
+                return r[1]
+            pre_iter = r[1]
         out = []
         frame = self.alloc(Frame())
         saved = self.scope
         self.scope = [frame] + list(self.scope)
         try:
-            self._comp(elt, gens, 0, out)
+            self._comp(elt, gens, 0, out, pre_iter)
         finally:
             self.scope = saved
         return out
 
-    def _comp(self, elt, gens, k, out):
+    def _comp(self, elt, gens, k, out, pre_iter=None):
         if k == len(gens):
             out.append(self.eval(elt))
             return
         g = gens[k]
-        it = self.eval(g.iter)
+        it = pre_iter if (k == 0 and pre_iter is not None) else self.eval(g.iter)
         items = self.concrete_iter(it)
         if items is None:
             raise Unsupported(f'comprehension over symbolic iterable at {self.cur_loc}')
